@@ -243,9 +243,10 @@ class MLMCPath(MCPath):
         payoff_underlying_from_cp = product.underlying_value(
             times, path_coarse, jump_path_coarse
         )
+        # the fine/coarse values are stored on the last axis (one row per payoff component), as in the statistics
         self.payoff = np.array(
             [product(payoff_underlying_from_fp), product(payoff_underlying_from_cp)]
-        )
+        ).T
         self.process_spot_level_l(path_fine, path_coarse)
         self.payoff_control_variates = control_variates.process_mlmc(
             times,
@@ -268,7 +269,7 @@ class MLMCPath(MCPath):
         jump_path = self.stochastic_path.value_jump()
         payoff_underlying = product.underlying_value(times, path, jump_path)
         payoff = product(payoff_underlying)
-        self.payoff = np.array([payoff, 0.0])
+        self.payoff = np.array([payoff, np.zeros_like(payoff)]).T
         self.process_spot(path)
         self.payoff_control_variates = control_variates.process(
             times=times,
